@@ -589,6 +589,17 @@ func (s *Stage) Recover() {
 			defer wg.Done()
 			for f := range ch {
 				finalFile := s.partialToFinal(f)
+				// A complete staged copy may be a retransmission of a file
+				// that was already delivered (and logged) before the restart
+				s.buildCache(s.cacheBuildTime(f.Time.Time))
+				if existing := s.fromCache(finalFile.path); existing != nil &&
+					existing.state >= stateFinalized &&
+					existing.hash == finalFile.hash {
+					s.logInfo("Ignoring duplicate (recover):", finalFile.name)
+					os.Remove(finalFile.path + fullExt)
+					os.Remove(finalFile.path + compExt)
+					continue
+				}
 				s.toCache(finalFile, stateReceived)
 				s.process(finalFile)
 			}
